@@ -249,6 +249,41 @@ def make_case_factory(scn, scratch, counters=None):
             if got != want:
                 out.append({"read": "keys", "key": "", "kind": "listing_is_not_the_union_of_the_parts",
                             "detail": "missing %r extra %r after %r" % (sorted(want - got)[:4], sorted(got - want)[:4], done), "rel": "-"})
+            # metadata through the composite == metadata of the owning part, re-prefixed (mount points included)
+            for j, lf in enumerate(leaves):
+                try:
+                    ks = [""] + sorted(k for k in lf.keys() if k not in ("", None))[:10]
+                except Exception:
+                    continue
+                for k in ks:
+                    rk = prefixes[j] if k == "" else prefixes[j] + "/" + k
+                    if owner(prefixes, rk) != j:
+                        continue
+                    try:
+                        pmd = lf.get_metadata(k)
+                    except Exception:
+                        continue   # the part has no metadata of its own for this key: nothing to re-prefix
+                    if counters is not None:
+                        counters["composite_vs_part_metadata"] = counters.get("composite_vs_part_metadata", 0) + 1
+                    try:
+                        cmd = mps.get_metadata(rk)
+                    except Exception as e:
+                        out.append({"read": "get_metadata", "key": rk, "kind": "raises_where_the_part_answers",
+                                    "detail": "%r after %r" % (e, done), "rel": "mount point" if k == "" else "below"})
+                        continue
+                    if not isinstance(pmd, dict) or not isinstance(cmd, dict):
+                        continue
+                    if cmd.get("key") != rk:
+                        out.append({"read": "get_metadata", "key": rk, "kind": "reported_key_not_re_prefixed",
+                                    "detail": "reports %r after %r" % (cmd.get("key"), done), "rel": "mount point" if k == "" else "below"})
+                    diff = [f for f in sorted(set(pmd) | set(cmd)) if f not in ("key", "fileinfo", "updated", "created") and pmd.get(f) != cmd.get(f)]
+                    fi_p, fi_c = pmd.get("fileinfo") or {}, cmd.get("fileinfo") or {}
+                    diff += ["fileinfo." + f for f in sorted(set(fi_p) | set(fi_c)) if f != "name" and fi_p.get(f) != fi_c.get(f)]
+                    if diff:
+                        out.append({"read": "get_metadata", "key": rk, "kind": "differs_from_the_part's_metadata",
+                                    "detail": "fields %r: part %r composite %r after %r" % (
+                                        diff[:4], {f: pmd.get(f) for f in diff[:4]}, {f: cmd.get(f) for f in diff[:4]}, done),
+                                    "rel": "mount point" if k == "" else "below"})
             return out[:3]
 
         extra.wild = wild
